@@ -341,6 +341,7 @@ def run(ctx):
     try:
         stage_schema(ctx, pq, w)
         stage_struct_levels(ctx, pq, w)
+        stage_refusal(ctx, pq, w)
         if not FX:
             stage_fixtures(ctx, pq, w)
         stage_direct(ctx, pq, w)
@@ -466,6 +467,42 @@ def stage_struct_levels(ctx, pq, w):
                     ctx.correspondence("nested_levels ~ core._nested_levels", {**case, "leaf": leaf["which"]},
                                        [bool(int(m[0])), [int(x) for x in m[1]], int(m[2]), "uint8", True],
                                        [r["null"], r["defi_out"], r["max_def_out"], r["dtype"], r["none_passthrough"]])
+
+
+# ---- F: files the one-level reader cannot represent: it must refuse, not mis-assemble ------------------
+
+def stage_refusal(ctx, pq, w):
+    lay1 = dict(cuts=[], version=1, dictionary=False, level_style="mixed", codec=None)
+    rows = [[1, None], None, [], [2, 3]]
+    cases = []
+    # (a) LIST / MAP below a REPEATED group: two repetition levels
+    for kind in ("list", "map"):
+        col = dict(name="r.c", kind=kind, row_opt=True, elem_opt=True, ptype="int64", key_ptype="utf8",
+                   structs=[{"name": "r", "opt": False, "rep": True}])
+        r = rows if kind == "list" else [[["a", 1], ["b", None]], None, [], [["c", 3]]]
+        layout = {"r.c/elem": lay1} if kind == "list" else {"r.c/key": lay1, "r.c/value": lay1}
+        cases.append(("%s below a repeated group (max repetition level 2)" % kind.upper(), col, r, layout, ["NotImplementedError"]))
+        col2 = dict(name="c", kind=kind, row_opt=True, elem_opt=True, ptype="int64", key_ptype="utf8", top_rep=True)
+        layout2 = {"c/elem": lay1} if kind == "list" else {"c/key": lay1, "c/value": lay1}
+        cases.append(("%s group itself declared repeated (max repetition level 2)" % kind.upper(), col2, r, layout2, ["NotImplementedError"]))
+    # (b) a v2 page that starts inside a row (v2 pages hold whole rows)
+    col = dict(name="c", kind="list", row_opt=True, elem_opt=True, ptype="int64")
+    for dictionary in (False, True):
+        cases.append(("DataPageV2 cut inside a row", col, rows, {"c/elem": dict(lay1, version=2, cuts=[1], dictionary=dictionary)}, ["ValueError"]))
+    # (c) the chunk's first v1 page starts inside a row (stream does not begin with rep = 0): written by dropping the first entry
+    for name, col, r, layout, want in cases:
+        path = os.path.join(ctx.scratch, "refuse.parquet")
+        case = {"stage": "refusal", "what": name, "cols": [col], "rgs": [{"rows": {col["name"]: r}, "layout": layout}]}
+        ctx.case(case)
+        NF.write_file(path, [col], case["rgs"])
+        res = isolated({"op": "read", "path": path, "cols": [col["name"]]})
+        exc = str(res.get("exc", ""))
+        absent = isinstance(res.get("ok"), dict) and res["ok"].get(col["name"]) == "missing column"
+        ctx.count("refusal.outcome", "%s -> %s" % (name, "column not exposed by to_pandas()" if absent else
+                                                     (exc.split(":")[0] if exc else ("crash" if "crash" in res else "rows returned"))))
+        if not absent and not any(exc.startswith(x) for x in want):
+            ctx.fail({"component": "refusal", "what": name}, {**case, "replay": {"kind": "file"}},
+                     "a file the one-level assembly cannot represent was not refused: %s" % _trim(res))
 
 
 # ---- D: nested files written by others (repository test data) --------------------------------
@@ -792,8 +829,8 @@ def expected_cells(col, rows):
     if col["kind"] == "flat":
         return [{"scalar": repr(v)} for v in rows]
     if col["kind"] == "list":
-        return [None if r == NF.STRUCT_NULL else r for r in rows]
-    return [None if (r is None or r == NF.STRUCT_NULL) else {"dict": [[k, v] for k, v in r]} for r in rows]
+        return [None if NF.is_struct_null(r) else r for r in rows]
+    return [None if (r is None or NF.is_struct_null(r)) else {"dict": [[k, v] for k, v in r]} for r in rows]
 
 
 def file_case_classes(case):
@@ -830,9 +867,9 @@ def model_file(pq, case, written):
             n = len(rg["rows"][leaf["col"]])
             ro_call = leaf["row_opt"]
             pages = leaf["pages"]
-            if leaf.get("struct_opt") is not None:
-                # LIST / MAP group below a struct: the call parameters and levels read_col derives (model of _nested_levels)
-                pt = [1 if leaf["struct_opt"] else 0, 1 if leaf["row_opt"] else 0, 2, 1 if leaf["elem_opt"] else 0]
+            if leaf.get("struct_opts") is not None:
+                # LIST / MAP group below structs: the call parameters and levels read_col derives (model of _nested_levels)
+                pt = [1 if o else 0 for o in leaf["struct_opts"]] + [1 if leaf["row_opt"] else 0, 2, 1 if leaf["elem_opt"] else 0]
                 folded = []
                 for (r, d, v) in pages:
                     nl = pq.call("nested_levels", pt, d, leaf["max_def"])
@@ -935,7 +972,10 @@ def check_file_case(ctx, pq, w, case, path, conf_budget):
     ctx.count("file.codecs", ",".join(sorted({str(lay.get("codec")) for rg in case["rgs"] for lay in rg["layout"].values()})))
     ctx.count("file.kinds", ",".join(sorted(c["kind"] + ("" if c["kind"] == "flat" else ("/opt" if c["row_opt"] else "/req") + ("/opt" if c["elem_opt"] else "/req"))
                                             for c in case["cols"])))
-    ctx.count("file.struct_nested", ",".join(sorted({("optional struct" if c["struct"]["opt"] else "required struct") for c in case["cols"] if c.get("struct")})) or "top level")
+    ctx.count("file.struct_nested", ",".join(sorted({"/".join("optional" if x["opt"] else "required" for x in NF.col_structs(c)) + " struct"
+                                                     for c in case["cols"] if NF.col_structs(c)})) or "top level")
+    ctx.count("file.empty_pages", sum(1 for rg in case["rgs"] for lay in rg["layout"].values() if len(set(lay["cuts"])) != len(lay["cuts"])
+                                      or (lay["cuts"] and lay["cuts"][0] == 0)))
     ctx.count("file.row_groups", len(case["rgs"]))
     ctx.count("file.max_pages_per_chunk", max(len(lay["cuts"]) + 1 for rg in case["rgs"] for lay in rg["layout"].values()))
     written = write_case(case, path)
@@ -985,6 +1025,9 @@ def gen_layout(rng, rep, version, force_cuts=None, maxcuts=3, ptype=None):
     else:
         cand = list(range(1, len(rep))) if version == 1 else row_boundaries(rep)
         cuts = sorted(rng.sample(cand, min(len(cand), rng.choice([0, 1, 1, 2, maxcuts]))))
+    if force_cuts is None and rng.random() < 0.08:
+        # a page without any entry: a cut position used twice (or a cut at 0)
+        cuts = sorted(cuts + [rng.choice(cuts + [0])])
     npages = len(cuts) + 1
     modes = [None, None, "all", "elems", "zero"]
     return dict(cuts=cuts, version=version, dictionary=(rng.random() < 0.5 and ptype != "boolean"),
@@ -1093,9 +1136,11 @@ def stage_files(ctx, pq, w):
             elif rng.random() < 0.3:
                 col["group_name"], col["elem_name"] = rng.choice([("bag", "array_element"), ("array", "item"), ("list", "item")])
             if rng.random() < 0.25:
-                # the LIST / MAP group sits inside a struct group; pandas column "s<k>.<name>"
-                col["struct"] = {"name": "s%d" % ci, "opt": rng.random() < 0.6}
-                col["name"] = "s%d.%s" % (ci, name)
+                # the LIST / MAP group sits inside one or two struct groups; pandas column "s<k>[.t<k>].<name>"
+                col["structs"] = [{"name": "s%d" % ci, "opt": rng.random() < 0.6}]
+                if rng.random() < 0.35:
+                    col["structs"].append({"name": "t%d" % ci, "opt": rng.random() < 0.6})
+                col["name"] = ".".join([x["name"] for x in col["structs"]] + [name])
             cols.append(col)
         if rng.random() < 0.35:
             # an ordinary required column before / between / after the nested ones
@@ -1129,8 +1174,10 @@ def stage_files(ctx, pq, w):
                     rows = gen_rows(rng, col["row_opt"], col["elem_opt"], nrows, maxlen, col["ptype"])
                 else:
                     rows = gen_map_rows(rng, col["row_opt"], col["elem_opt"], nrows, maxlen, col["key_ptype"], col["ptype"])
-                if col.get("struct") and col["struct"]["opt"]:
-                    rows = [NF.STRUCT_NULL if rng.random() < 0.15 else r for r in rows]
+                nso = sum(1 for x in NF.col_structs(col) if x["opt"])
+                if nso:
+                    rows = [(NF.STRUCT_NULL if (nso == 1 or rng.random() < 0.5) else "<struct null 1>") if rng.random() < 0.15 else r
+                            for r in rows]
                 rg["rows"][col["name"]] = rows
                 for leaf in NF.leaf_columns(col):
                     lrows = NF.leaf_rows(col, leaf, rows)
